@@ -17,6 +17,7 @@ package middleware
 import (
 	"encoding"
 	"encoding/base64"
+	stderrors "errors"
 	"fmt"
 	"io"
 	"net/http"
@@ -214,6 +215,9 @@ func (p *untypedParamBinder) Bind(request *http.Request, routeParams RouteParams
 			file, header, ffErr := request.FormFile(p.parameter.Name)
 			if ffErr != nil {
 				if p.parameter.Required {
+					if stderrors.Is(ffErr, http.ErrMissingFile) {
+						return errors.Required(p.Name, p.parameter.In, nil)
+					}
 					return errors.NewParseError(p.Name, p.parameter.In, "", ffErr)
 				}
 
